@@ -1,5 +1,5 @@
 (* C01/Props.v — the property theorems for C01 (MiniIncan fragment), and nothing else. *)
-From Verif Require Import Base.I64 C04.Model Core.Syntax Core.Dynamic Core.Rust Core.Lower C01.Model C01.Proofs C01.ProofsStmt.
+From Verif Require Import Base.I64 C04.Model Core.Syntax Core.Dynamic Core.Rust Core.Lower C01.Model C01.Proofs C01.ProofsStmt C01.ProofsElif.
 From Coq Require Import ZArith List Bool.
 Import ListNotations.
 Open Scope Z_scope.
@@ -80,3 +80,48 @@ Proof.
   unfold Known_C01_grouping. vm_compute. repeat split; reflexivity.
 Qed.
 Print Assumptions C01_compile_refuted.
+
+(* P6  order of the elif conditions, documented semantics: in `if c0: .. elif c1: .. elif cn: .. [else ..]` the conditions are
+       evaluated top to bottom.  If c0 and the elif conditions before `c` are false and `c` holds, the statement runs exactly
+       the body of `c` in its own scope — whatever follows (`post`, `tail`) is never evaluated, even a later condition that
+       holds as well or that would raise ZeroDivisionError.  Ladders of any length; fuel: one unit per condition tested. *)
+Theorem C01_elif_first_true : forall P E c0 th pre c b post tail f,
+  eval E c0 = EV (VB false) ->
+  Forall (fun cb => eval E (fst cb) = EV (VB false)) pre ->
+  eval E c = EV (VB true) ->
+  exec_stmt P (S (length pre + S f)) E (SIf c0 th (ladder (pre ++ (c, b) :: post) tail))
+  = in_scope (length E) (exec_block P f E b).
+Proof. intros. now apply if_ladder_first_true. Qed.
+Print Assumptions C01_elif_first_true.
+
+(* P7  ... and a condition that raises ZeroDivisionError before any condition held stops the statement there: the order is
+       observable even with side-effect-free conditions *)
+Theorem C01_elif_first_stop : forall P E c0 th pre c b post tail f,
+  eval E c0 = EV (VB false) ->
+  Forall (fun cb => eval E (fst cb) = EV (VB false)) pre ->
+  eval E c = EZeroDiv ->
+  exec_stmt P (S (length pre + S f)) E (SIf c0 th (ladder (pre ++ (c, b) :: post) tail)) = ([], E, Halt ZeroDiv).
+Proof. intros. now apply if_ladder_first_stop. Qed.
+Print Assumptions C01_elif_first_stop.
+
+(* P8  order of the elif conditions in the generated code: lowering builds the chain `else { if c1 {..} else { if c2 {..} .. } }`
+       whose conditions, met from the outside in (the order the Rust program tests them), are the lowered elif conditions in
+       SOURCE order — for ladders of any length.  (With C01_compile_correct the emitted tokens parse back to that chain and
+       run like the source.)  Folding the branches in the other direction falsifies this statement for two or more elifs. *)
+Theorem C01_elif_order_lowered : forall P sc mv el el' mv',
+  lower_els P sc mv el = LOk (el', mv') ->
+  firstn (length (els_conds el)) (chain_conds el') = map (lower_expr sc) (els_conds el).
+Proof. intros P sc mv el el' mv' H. exact (lower_els_order P sc el mv el' mv' H). Qed.
+Print Assumptions C01_elif_order_lowered.
+
+(* the three statements are about ladders that exist: a 3-elif threshold ladder with overlapping conditions, input 75 *)
+Example C01_elif_nonvacuous :
+  let br := [(EBin OpGe (EVar 0) (EInt 80), blk [SPrint (CPure (EInt 2))]);
+             (EBin OpGe (EVar 0) (EInt 70), blk [SPrint (CPure (EInt 3))]);
+             (EBin OpGe (EVar 0) (EInt 60), blk [SPrint (CPure (EInt 4))])] in
+  let s := SIf (EBin OpGe (EVar 0) (EInt 90)) (blk [SPrint (CPure (EInt 1))]) (ladder br (EElse (blk [SPrint (CPure (EInt 5))]))) in
+  exec_stmt [] 10%nat [(0, VI 75)] s = ([LI 3], [(0, VI 75)], Go) /\
+  els_conds (ladder br ENone) = map fst br /\
+  (exists el' mv', lower_els [] [[(0, TyInt)]] [] (ladder br ENone) = LOk (el', mv') /\
+                   chain_conds el' = map (lower_expr [[(0, TyInt)]]) (map fst br)).
+Proof. vm_compute. repeat split. eexists; eexists; split; reflexivity. Qed.
